@@ -56,6 +56,10 @@ CLAIMED = {
     text="R1/R2: every program of ViewAlgebra.tla and ArrayOps.tla within the bounds (and thereby what C01/C04/C06 judge) is replayed by three builds of the same replayers (default, -DNDEBUG, -DBOOST_MULTI_ASSERT_DISABLE); the default build must run assertion-free and the three observation records must be identical. R3: specs/Contracts.tla appends to every view program one step outside the documented domain (index just outside / two outside the extension through brackets, through the last bracket of a chain and through call syntax; assignment from an array one longer / one shorter), TLC checks each really is out of domain, and the replayer (assertion-enabled, guarded buffer) must observe a library assertion stopping it.",
     note="bounded: roots D<=3, extents 0..2/3, programs of <= 2 operations; slicing out of range is not among the promised stops (the 1-D sliced has no assertion) and is not demanded; an out-of-bounds READ that precedes a later assertion would not be seen (writes are, through guard cells).",
     ref="DESIGN.md section 5 C20"),
+ "C12": dict(
+    text="specs/Projection.tla extends the view state machine: a view program on an array of records {short a; short b;}, then one projection (member_cast of either member, reinterpret_array_cast<int32>() in place, reinterpret_array_cast<short>(2) adding a trailing dimension, static_array_cast to const, const_array_cast, as_const, lazy element_transformed(f) read after the source was mutated, element_transformed with a reference-returning function written through, conversion to an array of another element type; the casts also through const views), then view operations on the projected view; the specification prescribes the resulting shape, the storage unit every element designates and the value read there; the replayer reports the same from the real views (addresses relative to the root's storage) and they must agree; write-through and storage independence of converted arrays are checked on the root afterwards.",
+    note="bounded: roots D<=3, extents 0..3, one view operation before and one after the cast (two in thorough); little-endian; const_array_cast/as_const do not exist for 1-D views; complex real/imag projections are not exercised here.",
+    ref="DESIGN.md section 5 C12"),
 }
 
 props = [json.loads(l) for l in open(os.path.join(V, "properties.jsonl"))]
